@@ -8,6 +8,7 @@ NOT_CLAIMED={
  'C19-w7m1':'same as C07-w7m2: a source that resumes after end of file',
  'C16-w7m2':'needs a PacketsParser that keeps the slice it was handed beyond the call; whether that slice may be reused is not promised either way',
  'C19-w7m2':'needs a PAT/PMT section_length >= 1024, which ISO 13818-1 forbids',
+ 'C09-w10m2':'needs the decoding of a typed descriptor (local_time_offset with two entries) to be compared: descriptor codecs are property C14, not applicable to this technique; the reference streams carry user-defined descriptors only',
  'C16-w9m2':'needs a packet that repeats the counter of its predecessor but has another adaptation-field structure (with a PCR where the original has none): not a duplicate in the sense of ISO 13818-1 2.4.3.3, outside the conformant streams of the quantifier',
  'C19-w8m2':'null packets (PID 0x1FFF) are not units: whether they are handed to a PacketsParser is not promised',
 }
